@@ -191,7 +191,7 @@ var PathSweepHeaders = []HeaderCombo{{}, {CT: JSON, Accept: JSON, Body: true, XC
 
 var baseTokens = []string{"a", "b", "{x}", "{y}", "{n:[0-9]+}", "{w:[a-z]}", "{s}.js", "{t:*}", "a:go", "{x}:go", "pre_{p}", "a.{p}.js"}
 var baseRoots = []string{"/", "/a", "/a/b", "/{r}", "/a/{r}"}
-var baseSegs = []string{"a", "b", "7", "ab", "x.js", "a.js", "a:go", "7:go", "", "pre_z", "é{x}"}
+var baseSegs = []string{"a", "b", "7", "ab", "x.js", "a.js", "a:go", "7:go", "", "pre_z", "é{x}", "7go", "7:ungo"}
 
 // JSR311 documents literals, {v}, {v:regex} and the tail wildcard only.
 var jsrTokens = []string{"a", "b", "{x}", "{y}", "{n:[0-9]+}", "{w:[a-z]}", "{t:*}", "{g:[a-z]+(x7)?}"}
@@ -213,7 +213,7 @@ func PathUniverse(r rm.Router, tier string, small bool) Universe {
 		u.MaxSub = 1
 		if r == rm.Curly {
 			u.Tokens = []string{"a", "{x}", "{n:[0-9]+}", "{s}.js", "{t:*}", "a:go", "b", "{x}:go", "pre_{p}", "{w:[a-z]}"}
-			u.Segs = []string{"a", "b", "7", "x.js", "a:go", ""}
+			u.Segs = []string{"a", "b", "7", "x.js", "a:go", "", "7go"}
 		} else {
 			u.Tokens = []string{"a", "{x}", "{n:[0-9]+}", "{t:*}", "b"}
 			u.Segs = []string{"a", "b", "7", ""}
